@@ -170,9 +170,18 @@ func VerifH_c09_programs() {
 		}
 	}
 	// whatever happened, outside MULTI the next command executes immediately
+	// and a fresh transaction on the same connection runs normally (nothing
+	// from an earlier, finished transaction may linger)
 	if !m.inMulti {
 		r := vCmd(cs, "SET", "after", "1")
 		vAssert("normal-mode-after-transaction", vIsOK(r))
+		if !m.watching {
+			vAssert("probe-multi-ok", vIsOK(vCmd(cs, "MULTI")))
+			vAssert("probe-queued", vIsQueued(vCmd(cs, "SET", "probe", "1")))
+			a, ok := vArrayOf(vCmd(cs, "EXEC"))
+			vAssert("probe-transaction-runs", ok && len(a) == 1 && vIsOK(a[0]))
+			vAssert("probe-effect", vIsBulk(vCmd(obs, "GET", "probe"), "1"))
+		}
 	}
 }
 
